@@ -811,7 +811,12 @@ fn exec_chunk(a: &Args, dir: &Path, chunk: usize, from: u64, to: u64) -> ChunkRe
         } else {
             exit_class(&r4.status, &r4.stdout)
         };
-        let key = crash_key(&plan);
+        let key = refine_overflow_key(
+            a,
+            &["--worker".into(), "--from".into(), bad.to_string().into(), "--to".into(), (bad + 1).to_string().into()],
+            &crash_key(&plan),
+            &format!("{}{}", r2.stderr_tail, r4.stderr_tail),
+        );
         *acc.viol_counts.entry((class4.clone(), key.clone())).or_insert(0) += 1;
         acc.violations.push(Violation {
             class: class4,
@@ -836,6 +841,78 @@ fn crash_key(plan: &Json) -> String {
         .and_then(|s| s.as_str())
         .unwrap_or("unknown-site")
         .to_owned()
+}
+
+/// A stack overflow is keyed by the library function that recurses, so that the known-findings
+/// file can list one recursion without hiding another. The dead child is re-run once under gdb
+/// (`args` = the worker arguments that reproduce the death) and the library function that occurs
+/// most often in the innermost 64 frames is taken (ties: alphabetical). Without gdb the key ends
+/// in ":stack-overflow" only.
+fn refine_overflow_key(a: &Args, args: &[std::ffi::OsString], key: &str, stderr_tail: &str) -> String {
+    if !stderr_tail.contains("overflowed its stack") {
+        return key.to_owned();
+    }
+    match overflow_site(a, args) {
+        Some(site) => format!("{}:stack-overflow@{}", key, site),
+        None => format!("{}:stack-overflow", key),
+    }
+}
+
+fn overflow_site(a: &Args, args: &[std::ffi::OsString]) -> Option<String> {
+    let inner = self_cmd(a);
+    let mut c = Command::new("gdb");
+    c.args(["-q", "-batch", "-nx", "-ex", "set pagination off", "-ex", "set confirm off", "-ex", "run", "-ex", "bt 64", "--args"]);
+    c.arg(inner.get_program());
+    c.args(inner.get_args());
+    c.args(args);
+    c.stdin(Stdio::null()).stdout(Stdio::piped()).stderr(Stdio::null());
+    let mut child = c.spawn().ok()?;
+    // bounded wait: gdb is an aid, never a reason to hang the batch
+    let pid = child.id();
+    let done = Arc::new(std::sync::atomic::AtomicBool::new(false));
+    let done2 = Arc::clone(&done);
+    std::thread::spawn(move || {
+        let t0 = Instant::now();
+        while t0.elapsed() < Duration::from_secs(180) {
+            std::thread::sleep(Duration::from_millis(200));
+            if done2.load(Ordering::Relaxed) {
+                return;
+            }
+        }
+        // SAFETY: plain kill(2) on our own child
+        unsafe {
+            libc::kill(pid as i32, libc::SIGKILL);
+        }
+    });
+    let mut text = String::new();
+    if let Some(mut so) = child.stdout.take() {
+        let _ = so.read_to_string(&mut text);
+    }
+    let _ = child.wait();
+    done.store(true, Ordering::Relaxed);
+    let mut counts: BTreeMap<String, u32> = BTreeMap::new();
+    for l in text.lines() {
+        let l = l.trim_start();
+        if !l.starts_with('#') {
+            continue;
+        }
+        // "#4  0x... in path::to::function<generics> (args) at file:line"
+        let rest = l.split_once(char::is_whitespace).map(|x| x.1.trim_start()).unwrap_or("");
+        let rest = match rest.strip_prefix("0x") {
+            Some(r) => r.split_once(" in ").map(|x| x.1).unwrap_or(""),
+            None => rest,
+        };
+        let end = rest.find(|ch| ch == '<' || ch == ' ' || ch == '(').unwrap_or(rest.len());
+        let name = &rest[..end];
+        if name.starts_with("simplicity") && !name.contains('{') {
+            *counts.entry(name.to_owned()).or_insert(0) += 1;
+        }
+    }
+    let max = counts.values().copied().max()?;
+    if max < 3 {
+        return None;
+    }
+    counts.into_iter().find(|(_, n)| *n + 1 >= max).map(|(k, _)| k)
 }
 
 fn merge(acc: &mut ChunkResult, r: ChunkResult) {
@@ -873,7 +950,6 @@ fn replay_in_child(a: &Args, dir: &Path, plan: &Json, tag: &str) -> Vec<(String,
     let mut c = self_cmd(a);
     c.arg("--replay-child").arg("--replay").arg(&path);
     let r = run_child(c);
-    let _ = std::fs::remove_file(&path);
     let mut res = Vec::new();
     for l in r.stdout.lines() {
         if let Some(j) = l.strip_prefix("RESULT ") {
@@ -889,10 +965,11 @@ fn replay_in_child(a: &Args, dir: &Path, plan: &Json, tag: &str) -> Vec<(String,
     if !r.status.success() {
         res.push((
             exit_class(&r.status, &r.stdout),
-            crash_key(plan),
+            refine_overflow_key(a, &["--replay-child".into(), "--replay".into(), path.clone().into_os_string()], &crash_key(plan), &r.stderr_tail),
             format!("child died; stderr tail: {}", r.stderr_tail.trim()),
         ));
     }
+    let _ = std::fs::remove_file(&path);
     res
 }
 
@@ -949,6 +1026,32 @@ struct Known {
     class: String,
     key: String,
     what: String,
+}
+
+/// `*` in a known-finding key stands for any run of characters (used where one defect is reached
+/// through several decoders / jet families, which are part of the site string).
+fn glob_match(pat: &str, text: &str) -> bool {
+    let parts: Vec<&str> = pat.split('*').collect();
+    if parts.len() == 1 {
+        return pat == text;
+    }
+    let mut rest = text;
+    for (i, p) in parts.iter().enumerate() {
+        if i == 0 {
+            match rest.strip_prefix(p) {
+                Some(r) => rest = r,
+                None => return false,
+            }
+        } else if i == parts.len() - 1 {
+            return rest.ends_with(p);
+        } else {
+            match rest.find(p) {
+                Some(at) => rest = &rest[at + p.len()..],
+                None => return false,
+            }
+        }
+    }
+    true
 }
 
 fn load_known(property: &str) -> Vec<Known> {
@@ -1106,6 +1209,36 @@ pub fn main_with<E: Engine + 'static>(engine: &'static E) -> ! {
             }
         }
     }
+    // directed plans: every file under regressions/ for this property and engine is replayed in a
+    // fresh child on every batch (inputs of fixed defects, which must stay quiet, and of recorded
+    // findings, which must keep matching their known-findings entry)
+    let mut regression_files = 0u64;
+    if let Ok(rd) = std::fs::read_dir(verif_dir().join("regressions")) {
+        let mut files: Vec<PathBuf> = rd.flatten().map(|e| e.path()).filter(|p| p.extension().map(|x| x == "json").unwrap_or(false)).collect();
+        files.sort();
+        for f in files {
+            let j: Json = match std::fs::read_to_string(&f).ok().and_then(|t| serde_json::from_str(&t).ok()) {
+                Some(j) => j,
+                None => harness_error(&format!("regression file {:?} is not JSON", f)),
+            };
+            if j["property"].as_str() != Some(prop.as_str()) || j["engine"].as_str() != Some(engine.engine_name().as_str()) {
+                continue;
+            }
+            regression_files += 1;
+            for (class, key, message) in replay_in_child(&a, &dir, &j["plan"], "regression") {
+                *total.viol_counts.entry((class.clone(), key.clone())).or_insert(0) += 1;
+                let k = (class.clone(), key.clone());
+                groups.entry(k).or_insert(Violation {
+                    class,
+                    key,
+                    message: format!("{} [regression plan {}]", message, f.file_name().map(|x| x.to_string_lossy().into_owned()).unwrap_or_default()),
+                    plan: j["plan"].clone(),
+                    run: u64::MAX,
+                });
+            }
+        }
+    }
+    total.counters.insert("regression_plans_replayed".into(), regression_files);
     let known = load_known(&prop);
     let mut used_known: BTreeSet<usize> = BTreeSet::new();
     let mut unlisted = 0u64;
@@ -1115,7 +1248,7 @@ pub fn main_with<E: Engine + 'static>(engine: &'static E) -> ! {
         if let Some((i, k)) = known
             .iter()
             .enumerate()
-            .find(|(_, k)| k.class == *class && k.key == *key)
+            .find(|(_, k)| k.class == *class && glob_match(&k.key, key))
         {
             used_known.insert(i);
             lines.push(format!(
